@@ -53,6 +53,9 @@ CLAIMED = {
     "C16": ("Lean 4 theorems over an executable model of the two r-tree map matchers (selection = head of the nearest-first candidate list, first admissible edge, the tolerance comparisons and unit conversions exactly as coded, the JSON field writes) + bit-exact correspondence run against the real plugins built through their builders + independent exhaustive-scan / haversine oracle",
             "Proof, thin on proof content and said so: squared coordinate distances, great-circle distances (haversine) and vehicle-restriction verdicts are input tables computed by the harness with the real functions, and rstar's nearest-first order is a hypothesis (Sorted) checked on every generated case; given that, 'nearest' is 'head of a sorted list'. Proved for all inputs: the vertex written is an arg-min of distance_2 over all vertices and equals an exhaustive scan; the vertex plugin succeeds iff the nearest vertex's distance converted into the tolerance unit is <= the tolerance (cut-off t/k(u) metres with the code's own table factor), origin and destination; an edge match is the first admissible candidate and no admissible candidate is nearer; every field other than the two written ones keeps value and relative order (non-object queries untouched), an edge-plugin error leaves the query untouched; the destination is optional. the edge match is made exactly when the nearest admissible candidate's great-circle distance, converted into the tolerance unit, is <= the tolerance (edge_tolerance; the former units defect edge-match/tolerance-units is kept as a regression example and corpus witness). The vertex tolerance clause is proved in full as well (the former boundary defect vertex-match/tolerance-boundary — distance == tolerance rejected — is kept as a regression example and corpus witness). The tie to the code is differential (every outcome line and updated query identical on generated cases), not a proof.",
             "§5 C16"),
+    "C08": ("Lean 4 theorems over an executable model of the energy traversal model, prediction record (incl. float cache), ICE/BEV/PHEV and vehicle_ops, generic over any ordered field, prediction model and cache as parameters + bit-exact correspondence run against the real EnergyTraversalModel / SpeedTraversalModel / vehicles / FloatCachePolicy around a stub predictor",
+            "Proof: per-edge energy = rate(edge speed x exact reconstruction factor, grade) x adjustment x length (factor within 0.1% of 1 for all 720 unit configurations, decided by the kernel over the translator-regenerated tables); additivity along every route for every unit configuration and cache; state of charge within 0-100 for every edge sequence (induction), start value, exact clamped step -100 E/capacity, PHEV switch, best case, rejection of out-of-range / non-numeric starting charge; cache proved to be the identity when the key determines the prediction. Three deviations of the code are modelled faithfully and proved as counterexamples (cache key collisions / truncated key, unit mix in best_case_energy_state, starting charge set through state_features without range check); the haversine value used by estimate_traversal is an input of the model, not modelled.",
+            "§5 C08"),
 }
 
 NOT_YET = {
